@@ -23,7 +23,7 @@ from concurrent.futures import ThreadPoolExecutor
 CHECKS = {
     'C09': dict(
         engine='PoolLife',
-        technique='TLA+ spec PoolLife.tla (pool registry keyed by worker id, _closed never reset, per-worker cleanup threads close->wait->terminate, restart re-keying, add_worker failure paths, _pool_closed set at the END of _close, close interrupted by an exception in the closing thread) model-checked with TLC over all API histories; pre-fix and what-if variants rejected; histories enumerated by TLC (exhaustive path dump, simulation) replayed on real Pools with real thread/process(/remote) workers, tiny close_timeout, /proc scan after every step; TLC judges every real history (PoolLifeJudge); model outcomes vs real outcomes = conformance',
+        technique='TLA+ spec PoolLife.tla (pool registry keyed by worker id, _closed never reset, per-worker cleanup threads close->wait->terminate, restart re-keying, add_worker failure paths, _pool_closed set at the END of _close, close interrupted by an exception in the closing thread, run left through a BaseException, restart_workers(force=False) failing on a stuck worker) model-checked with TLC over all API histories; pre-fix and what-if variants rejected; histories enumerated by TLC (exhaustive path dump, simulation) replayed on real Pools with real thread/process(/remote) workers, tiny close_timeout, /proc scan after every step; TLC judges every real history (PoolLifeJudge); model outcomes vs real outcomes = conformance',
         text='Exhaustive TLC model checking of pool life-cycle histories (<= 5 calls quick / <= 6 thorough, <= 3 workers, thread/process(/remote), force none/False, incl. close/with-exit cut short by an exception while joining the clean-up threads), bound to the code by replaying TLC-enumerated histories on real pools and judging each step (OS process table, per-run results, who was handed work) with the same TLA+ operators.',
         note='Trusted: TLC; Pool.run abstracted to its effect on the bookkeeping (the loop itself is Pool.tla / C07); worker-level outcomes of close/wait/terminate taken from the C04 model; /proc (session scan) as ground truth; a colliding worker id is produced with a subclass that reports a given id. Replay covers a seeded sample of the enumerated histories.',
         design_ref='6/C09'),
@@ -287,9 +287,27 @@ def host_main(case_path, out_path):
                 restarted.clear()
                 if oc == 'raised':
                     st['exc'] = type(r).__name__
-            elif name == 'restart':
+            elif name == 'runint':
+                # run() left through a BaseException raised while it executes: the worker_callback raises KeyboardInterrupt
+                # when the first result arrives (inputs are still pending then)
+                nrun[0] += 1
+                base = nrun[0] * 100
+                inputs = [base + i for i in range(2 * max(1, len(list(pool.workers))) + 2)]
+
+                def cb(wk, ev, *a):
+                    if ev == 'finished':
+                        raise KeyboardInterrupt('interrupted while Pool.run is executing')
+                oc, r = bounded(lambda: pool.run(iter(inputs), worker_callback=cb))
+                st['outcome'] = oc
+                if oc == 'raised':
+                    st['exc'] = type(r).__name__
+                restarted.clear()
+            elif name in ('restart', 'restartg'):
                 regs = [w for w in ws if 'obj' in w and any(o is w['obj'] for o in pool.workers)]
-                oc, r = bounded(lambda: pool.restart_workers(timeout=CLOSE_T))
+                if name == 'restartg':      # the gentle variant: a worker stuck in an uncooperative target cannot be stopped
+                    oc, r = bounded(lambda: pool.restart_workers(timeout=CLOSE_T, force=False))
+                else:
+                    oc, r = bounded(lambda: pool.restart_workers(timeout=CLOSE_T))
                 st['outcome'] = oc
                 if oc == 'raised':
                     st['exc'] = type(r).__name__
@@ -457,6 +475,17 @@ CURATED = [
     ('none', ['add:process', 'stick:1', 'closeint', 'close']),
     ('false', ['add:process', 'add:process', 'stick:1', 'stick:2', 'closeint', 'terminate']),
     ('none', ['add:process', 'add:process', 'closeint', 'close']),
+    # run() left through a BaseException (KeyboardInterrupt from the worker_callback), then the block exit / close
+    ('none', ['add:process', 'add:process', 'runint', 'close']),
+    ('none', ['add:process', 'add:thread', 'runint', 'exc']),
+    ('none', ['add:process', 'run', 'runint', 'terminate', 'close']),
+    ('none', ['attach:process', 'runint', 'exc', 'close']),
+    # restart_workers(force=False) failing on a stuck worker (exception caught by the caller), then the pool is closed
+    ('none', ['add:process', 'add:process', 'stick:2', 'restartg', 'close']),
+    ('none', ['add:process', 'stick:1', 'restartg', 'terminate']),
+    ('none', ['add:process', 'add:thread', 'stick:1', 'restartg', 'restart', 'close']),
+    ('none', ['add:process', 'add:process', 'stick:1', 'restartg', 'exc']),
+    ('none', ['add:process', 'add:process', 'restartg', 'run', 'close']),
 ]
 CURATED_REMOTE = [
     ('none', ['add:remote', 'add:process', 'run', 'kill:1', 'run', 'close']),
@@ -467,6 +496,8 @@ CURATED_REMOTE = [
     ('none', ['attach:remote', 'close', 'add:remote', 'close']),
     ('none', ['add:process', 'add:remote', 'stick:1', 'stick:2', 'closeint', 'close']),
     ('none', ['add:remote', 'add:remote', 'stick:1', 'stick:2', 'termint', 'exc']),
+    ('none', ['add:remote', 'stick:1', 'restartg', 'close']),
+    ('none', ['add:remote', 'add:process', 'runint', 'exc']),
 ]
 
 
@@ -474,7 +505,7 @@ def _interesting(ops):
     base = [o.partition(':')[0] for o in ops]
     if base[0] not in ('add', 'attach'):
         return False
-    if not any(b in ('run', 'runp', 'restart', 'close', 'terminate', 'exc', 'closeint', 'termint') for b in base):
+    if not any(b in ('run', 'runp', 'runint', 'restart', 'restartg', 'close', 'terminate', 'exc', 'closeint', 'termint') for b in base):
         return False
     # nothing but closing calls after the first close is only interesting once or twice
     return True
@@ -501,11 +532,12 @@ def _select(tier, rng, free4, sim6, remote):
     pool6 = sorted(set((f, tuple(h.split())) for f, h in sim6 if _interesting(h.split())))
     rng.shuffle(pool4)
     rng.shuffle(pool6)
-    n4, n6 = (70, 30) if tier == 'quick' else (1200, 500)
+    n4, n6 = (60, 25) if tier == 'quick' else (1200, 500)
+    # the enumeration is done for force = none (the histories do not depend on it); one in four is replayed with force=False
     for f, ops in pool4[:n4]:
-        add(f, ops, rng.choice(['swallow', 'swallow', 'sleep']))
+        add(rng.choice(['none', 'none', 'none', 'false']), ops, rng.choice(['swallow', 'swallow', 'sleep']))
     for f, ops in pool6[:n6]:
-        add(f, ops, rng.choice(['swallow', 'swallow', 'sleep']))
+        add(rng.choice(['none', 'none', 'none', 'false']), ops, rng.choice(['swallow', 'swallow', 'sleep']))
     return plans
 
 
@@ -591,12 +623,14 @@ def run(prop, tier, replay=None):
         'whatif_reuse': dict(cfg=_mc_cfg(MaxOps='4', ReuseKeys='TRUE'), workers=2, expect='invariant:Inv_RestartedGetWork', label='what-if: restart keeps the worker id (must be rejected)'),
         'whatif_noreinit': dict(cfg=_mc_cfg(MaxOps='4', NoReinit='TRUE'), workers=2, expect='invariant:Inv_RunIsolated', label='what-if: run does not reset _retries (must be rejected)'),
         'whatif_earlyflag': dict(cfg=_mc_cfg(MaxOps='4', EarlyFlag='TRUE'), workers=2, expect='invariant:Inv_AllDead', label='what-if: _close sets _pool_closed before the clean-up (must be rejected)'),
+        'whatif_stickyguard': dict(cfg=_mc_cfg(MaxOps='4', StickyGuard='TRUE'), workers=2, expect='invariant:Inv_AllDead', label='what-if: a BaseException inside run leaves _map_guard set (must be rejected)'),
+        'whatif_earlyunreg': dict(cfg=_mc_cfg(MaxOps='4', EarlyUnreg='TRUE'), workers=2, expect='invariant:', label='what-if: restart_workers drops the registry entry before restarting (must be rejected)'),
         'whatif_norekey': dict(cfg=_mc_cfg(MaxOps='4', NoRekey='TRUE'), workers=2, expect='invariant:Inv_RunIsolated', label='what-if: restart_workers does not re-key (must be rejected)'),
     }
-    for w in ('W_ClosedWithStuck', 'W_RestartAfterDeath', 'W_DupRaised', 'W_RunAfterPoison', 'W_ForceFalseSurvivor', 'W_InterruptedStuck'):
+    for w in ('W_ClosedWithStuck', 'W_RestartAfterDeath', 'W_DupRaised', 'W_RunAfterPoison', 'W_ForceFalseSurvivor', 'W_InterruptedStuck', 'W_RunInterrupted', 'W_GentleRestartFails'):
         jobs[w] = dict(cfg=_mc_cfg(MaxOps='5') + 'INVARIANT ' + w + '\n', workers=2, expect='invariant:' + w, label='witness ' + w)
-    jobs['free4'] = dict(cfg=_dump_cfg(MaxOps='4', MaxW='2', Fix='FixNone', Kinds=kinds), workers=1, label='path dump: every history of 4 calls, <= 2 workers (code as it is)')
-    jobs['sim6'] = dict(cfg=_dump_cfg(MaxOps='6', MaxW='3', Fix='FixNone', Kinds=kinds), workers=1, label='simulation: histories of 6 calls, <= 3 workers',
+    jobs['free4'] = dict(cfg=_dump_cfg(MaxOps='4', MaxW='2', Fix='FixNone', Kinds=kinds, Plans='FreeNone'), workers=1, label='path dump: every history of 4 calls, <= 2 workers (code as it is)')
+    jobs['sim6'] = dict(cfg=_dump_cfg(MaxOps='6', MaxW='3', Fix='FixNone', Kinds=kinds, Plans='FreeNone'), workers=1, label='simulation: histories of 6 calls, <= 3 workers',
                         simulate='num=%d' % (1500 if tier == 'quick' else 6000))
 
     def tlc_job(nm):
@@ -642,8 +676,13 @@ def run(prop, tier, replay=None):
         for x in rp.tags.get('PATH', []):
             allowed[label].setdefault(x[0], set()).add(x[3])
     nopre = [p['id'] for p in plans if p['id'] not in allowed['pre']]
-    if nopre:
-        raise MachineryError('selected histories that are not behaviours of PoolLife.tla: %s' % [p['ops'] for p in plans if p['id'] in nopre][:3])
+    ncur = len(CURATED) + 3 + (len(CURATED_REMOTE) if remote else 0)
+    if any(int(i[1:]) < ncur for i in nopre):
+        raise MachineryError('curated histories that are not behaviours of PoolLife.tla: %s' % [p['ops'] for p in plans if p['id'] in nopre][:3])
+    # a sampled history was enumerated for force = none; with force=False it may not be a behaviour (run would wait for a
+    # stuck worker that the close did not kill): such a plan is not replayed
+    ev.cov['plans_dropped_not_a_behaviour_with_their_force'] = len(nopre)
+    plans = [p for p in plans if p['id'] not in nopre]
 
     # ---- 2. spec -> code ----
     t_rep = Timer()
@@ -674,6 +713,10 @@ def run(prop, tier, replay=None):
             ctx.append('dup')
         if any(x in ('close', 'terminate', 'exc') for x in prev) and any(x in ('add', 'attach') for x in prev[min(i for i, x in enumerate(prev) if x in ('close', 'terminate', 'exc')):]):
             ctx.append('add-after-close')
+        if 'runint' in prev:
+            ctx.append('after-interrupted-run')
+        if 'restartg' in prev or s['op'] == 'restartg':
+            ctx.append('gentle-restart')
         if any(x in ('closeint', 'termint') for x in prev):
             ctx.append('after-interrupted-close')
         kinds_ = sorted(set(o.partition(':')[2] for o in case['ops'] if o.startswith(('add:', 'attach:'))))
